@@ -64,6 +64,29 @@ def _run_one(args):
     }
 
 
+class KnownMap:
+    """known findings; an entry's `obligation` is an exact obligation name or a prefix ending in '*'"""
+
+    def __init__(self, entries):
+        self.entries = entries
+
+    def find(self, name):
+        for f in self.entries:
+            o = f["obligation"]
+            if o == name or (o.endswith("*") and name.startswith(o[:-1])):
+                return f
+        return None
+
+    def __contains__(self, name):
+        return self.find(name) is not None
+
+    def __getitem__(self, name):
+        return self.find(name)
+
+    def __iter__(self):
+        return iter([])
+
+
 def aggregate(results, prop):
     """obligation name -> {status, instances, backends, secs, sample}"""
     agg = {}
@@ -131,7 +154,7 @@ def main(argv=None):
     agg = aggregate(results, prop)
     known = json.load(open(os.path.join(ROOT, "known_findings.json"))) if os.path.exists(
         os.path.join(ROOT, "known_findings.json")) else {"findings": []}
-    known_names = {f["obligation"]: f for f in known["findings"] if f.get("status") == "known" and f["property"] == prop}
+    known_names = KnownMap([f for f in known["findings"] if f.get("status") == "known" and f["property"] == prop])
     expected = {}
     ec = os.path.join(ROOT, "contracts", "EXPECTED_COUNTS.json")
     if os.path.exists(ec):
@@ -151,7 +174,8 @@ def main(argv=None):
         elif v["status"] == "undecided":
             und_obs.append(n)
     # known findings that no longer reproduce are reported (not an error: they may have been fixed)
-    stale = [n for n in known_names if n in agg and agg[n]["status"] == "proved"]
+    stale = [f["obligation"] for f in known_names.entries
+             if not f["obligation"].startswith(prop + ".bounded.") and not any(known_names.find(n) is f for n in known_hit)]
     # bounded stand-ins
     bounded = []
     for r in results:
@@ -172,8 +196,14 @@ def main(argv=None):
                 broken.append(f"{r['name']}: bounded stand-in failed to run: {b['error'][-800:]}")
     out_lines = []
     rc = 0
+    seen_entries = []
     for n in known_hit:
-        out_lines.append(f"KNOWN-FINDING: property={prop} {n}: {known_names[n].get('what', '')}")
+        f = known_names[n]
+        if any(f is g for g in seen_entries):
+            continue
+        seen_entries.append(f)
+        hits = [m for m in known_hit if known_names[m] is f]
+        out_lines.append(f"KNOWN-FINDING: property={prop} {f['obligation']} ({len(hits)} obligation(s)): {f.get('what', '')}")
     for n in violations:
         path, reproduced = write_replay(prop, n, agg[n])
         tail = "" if reproduced else " no-failing-input-found"
